@@ -154,6 +154,17 @@ class Proxy(Family):
                         b[4] &= ~4
                     elif k == 6:
                         b = bytearray(rng.below(256) for _ in range(20))
+                    elif k == 7:
+                        # the size field alone (the eight value bytes still follow)
+                        b[8:12] = W.le(rng.choice([0, 4, 7, 9, 16]), 4)
+                    elif k == 8:
+                        # a short acknowledgement, consistently framed: size 0 or 4 and exactly that many value bytes
+                        sz = rng.choice([0, 4])
+                        vv = rng.choice([0, 1, 2**32, 2**64 - 22])
+                        b = bytearray(W.hdr(code, 5, sz) + W.u64(vv)[:sz])
+                    elif k == 9:
+                        # size 4, a failure code in the upper half of the eight bytes that follow
+                        b = bytearray(W.hdr(code, 5, 4) + W.u64(rng.choice([2**32, 2**63])))
                     script = [(bytes(b), sf)] if len(b) else []
                 elif rng.chance(1, 8):
                     script = [(W.hdr(code, 5, 8) + W.u64(0), [])]
